@@ -19,6 +19,11 @@ class HarnessError(Exception):
     pass
 
 
+class _Found(Exception):
+    """Raised inside a Hypothesis test body for a recorded property failure (so that any
+    other exception - including AssertionError from harness code - is a harness error)."""
+
+
 def hyp_search(
     prop,
     strategy,
@@ -71,7 +76,7 @@ def hyp_search(
             for b, d, lab in unknown:
                 if b == state["target"]:
                     state["last"] = (b, d, case, lab)
-                    raise AssertionError(b)
+                    raise _Found(b)
 
         test = given(strategy)(body)
         test = settings(
@@ -86,7 +91,7 @@ def hyp_search(
         test = hypothesis.seed(derive_seed(seed, rounds))(test)
         try:
             test()
-        except AssertionError:
+        except _Found:
             pass
         except hypothesis.errors.HypothesisException as e:
             # Flaky etc.: keep the recorded failure if there is one, otherwise harness error
